@@ -149,6 +149,11 @@ class SaverModel:
                 if WRITE_MODE_CHARS & set(mode):
                     w = _Write(ev, ref, path, path_kind(path, dests), f"open(mode={mode!r})", close_seq_for(ev), seq)
                     w.fresh = bool(set(mode) & {"w", "x"})
+                    buf = ev.kwargs.get("buffering")
+                    if buf is None:
+                        pos = 1 if f[0] == "attr" else 2
+                        buf = ev.args[pos] if len(ev.args) > pos else None
+                    w.unbuffered = buf == ("const", 0)
                     self.writes.append(w)
                 continue
             if is_global(f, "os.open") and ev.args:
@@ -279,6 +284,16 @@ def rule_c20_atomic(prog: Program, col: Collector) -> None:
             col.check(False, w.ref.where(w.ev.node), w.ref.short, f"the temporary file is created fresh (truncating or exclusive open; found {w.how})", construct="temp-not-fresh",
                       necessity="a save that died earlier leaves its temporary file behind: opened without truncation, a shorter new content keeps the tail of the leftover, and the "
                                 "replace installs a file that does not parse ('Extra data') - every stored run is lost one save after the crash", rule="A2")
+    for w in m.writes:
+        if getattr(w, "unbuffered", False):
+            col.check(False, w.ref.where(w.ev.node), w.ref.short, "the temporary file is written through a buffered writer (found buffering=0)", construct="temp-unbuffered",
+                      necessity="a raw write may store fewer bytes than it was given (file-size limit, quota, signal) and says so only in its return value: the truncated "
+                                "temporary file is then closed without an error and installed over the results file", rule="A2")
+    raw_writes = [e for r in m.functions for rr in [prog.find_func(r) or prog.func(r)] if rr is not None for e in fterms(prog, rr).calls()
+                  if is_global(e.func, "os.write")]
+    for e in raw_writes:
+        col.check(False, saver.where(e.node), saver.short, "content is written through a file object, not os.write (whose short counts must be looped over)",
+                  construct="temp-os-write", necessity="os.write may write fewer bytes than given", rule="A2")
     col.rule("A3", "the atomic replace(tmp, dest) comes after the temporary file is closed, on every path that wrote it", 0)
     dests = {("param", m.dest_param)}
     for w in m.writes:
@@ -323,6 +338,21 @@ def rule_c20_atomic(prog: Program, col: Collector) -> None:
                       necessity="between moving data.json aside and installing the new file there is no results file at all: a crash there loses every earlier run for the next save",
                       rule="A4")
     for ev, ref, path, kind in m.removes:
+        # an entry of the destination's own directory (glob / iterdir / listdir / scandir over a path derived from the destination) may BE the destination
+        listing = [s for s in subterms(path) if s[0] == "call" and ((s[1][0] == "attr" and s[1][2] in ("glob", "rglob", "iterdir"))
+                                                                    or is_global(s[1], "os.listdir", "os.scandir", "glob.glob", "glob.iglob"))
+                   and any(has_subterm(s, d) for d in dests)]
+        if listing:
+            excluded = any(f[0] == "if" and any(has_subterm(f[1], d) for d in dests) and has_subterm(f[1], path if path[0] != "index" else path) for f in ev.ctx)
+            if excluded:
+                col.undecidable(ref.where(ev.node), ref.short, f"removal of directory entries {short(path, 50)} under a test that mentions the destination: not decided", rule="A4")
+            else:
+                col.check(False, ref.where(ev.node), ref.short,
+                          f"removal of entries listed from the destination's own directory ({short(listing[0], 60)}) cannot hit the results file itself",
+                          construct="remove-listed-sibling",
+                          necessity="a pattern such as `data.json*` (or a plain directory listing) also yields data.json: it is unlinked before the new file is installed, "
+                                    "so a crash in between leaves no results file and every earlier run is lost", rule="A4")
+            continue
         if kind == "unknown":
             col.undecidable(ref.where(ev.node), ref.short, f"removal of a path not related to the destination: {short(path, 60)}",
                             rule="A4")
@@ -812,6 +842,33 @@ def rule_c19_commands(prog: Program, col: Collector) -> None:
             and se.args[2] == oe.term
         col.check(ok, ref.where(se.node), ref.short, "save(instance.model_dir, instance.unique_name, <that Output>)",
                   construct="save-args", necessity="results must be stored under the run's own name in the model directory")
+        if q == "run.greedy.greedy_func":
+            # the one sequence the greedy search returns is stored as ONE COLUMN (steps x 1), like one repetition of the other commands
+            seq = ("index", roots[0], ("const", 1))
+            arr = [("call", ("global", "numpy.array"), (seq,), ()), ("call", ("global", "numpy.asarray"), (seq,), ())]
+            n_rows = ("call", ("global", "len"), (seq,), ())
+            one = ("const", 1)
+            column = []
+            for a in arr:
+                column += [("call", ("global", "numpy.reshape"), (a, ("tuple", (n_rows, one))), ()), ("call", ("attr", a, "reshape"), (("tuple", (n_rows, one)),), ()),
+                           ("call", ("attr", a, "reshape"), (n_rows, one), ()), ("call", ("attr", a, "reshape"), (("un", "-", one), one), ()),
+                           ("call", ("attr", a, "reshape"), (("tuple", (("un", "-", one), one)),), ()),
+                           ("call", ("global", "numpy.reshape"), (a, ("tuple", (("un", "-", one), one))), ()),
+                           ("index", a, ("tuple", (("slice", None, None, None), ("const", None)))),
+                           ("index", a, ("tuple", (("slice", None, None, None), ("global", "numpy.newaxis")))),
+                           ("call", ("global", "numpy.expand_dims"), (a, one), ()), ("call", ("global", "numpy.expand_dims"), (a,), (("axis", one),))]
+            row_like = any(is_call_to(s, "numpy.atleast_2d") or (is_call_to(s, "numpy.array", "numpy.asarray") and dict(s[3]).get("ndmin") is not None)
+                           or (s[0] == "index" and s[2][0] == "tuple" and s[2][1][:1] in ((("const", None),), (("global", "numpy.newaxis"),)))
+                           or (is_call_to(s, "numpy.expand_dims") and (s[2][1:2] == (("const", 0),) or dict(s[3]).get("axis") == ("const", 0)))
+                           for s in subterms(act_t))
+            if act_t in column:
+                col.ok(ref.where(oe.node), ref.short, "the greedy sequence is stored as one column (steps x 1)")
+            elif row_like:
+                col.check(False, ref.where(oe.node), ref.short, f"the greedy sequence is stored as one column, steps x 1 (found a ROW: {short(act_t, 60)})",
+                          construct="greedy-actions-row", necessity="a new axis in FRONT (ndmin=2, atleast_2d, [None, :]) gives 1 x steps: the stored action matrix no longer has one "
+                          "row per step next to the (steps + 1)-row gap matrix, so the entry read back is not the matrix the search produced")
+            else:
+                col.undecidable(ref.where(oe.node), ref.short, f"shape of the stored greedy action matrix not understood: {short(act_t, 80)}", rule="W4")
 
     # W4b: best-states accumulates gaps and actions in the same repetition order
     bref = prog.func("run.best_states.best_states_func")
